@@ -385,7 +385,7 @@ inline size_t gSizedObj(const galois::gdeque<T, CS>& data) {
 template <typename A>
 inline size_t
 gSizedObj(const std::basic_string<char, std::char_traits<char>, A>& data) {
-  return data.length() + 1;
+  return sizeof(size_t) + data.length();
 }
 
 /**
@@ -555,7 +555,10 @@ template <typename A>
 inline void
 gSerializeObj(SerializeBuffer& buf,
               const std::basic_string<char, std::char_traits<char>, A>& data) {
-  buf.insert((uint8_t*)data.data(), data.length() + 1);
+  // length-prefixed: a string may contain NUL characters
+  size_t len = data.length();
+  buf.insert((const uint8_t*)&len, sizeof(len));
+  buf.insert((const uint8_t*)data.data(), len);
 }
 
 // Forward declaration of vector serialize
@@ -910,11 +913,11 @@ template <typename A>
 inline void
 gDeserializeObj(DeSerializeBuffer& buf,
                 std::basic_string<char, std::char_traits<char>, A>& data) {
-  char c = buf.pop();
-  while (c != '\0') {
-    data.push_back(c);
-    c = buf.pop();
-  };
+  size_t len = 0;
+  buf.extract((uint8_t*)&len, sizeof(len));
+  data.resize(len);
+  if (len)
+    buf.extract((uint8_t*)&data[0], len);
 }
 
 // Forward declaration of vector deserialize
